@@ -328,9 +328,10 @@ func StructDiff(orig, cp *Snapshot, rootA, rootB string) StructDiffResult {
 				r.Shape = append(r.Shape, p+" (value differs)")
 			}
 		case "slice":
-			if m.Len != l.Len {
+			if m.Len < l.Len || (m.Len != l.Len && m.Ptr == l.Ptr) {
+				// a fresh scratch buffer may be larger than the original's, never smaller
 				r.Shape = append(r.Shape, fmt.Sprintf("%s (length %d vs %d bytes)", p, l.Len, m.Len))
-			} else if m.Hash != l.Hash {
+			} else if m.Hash != l.Hash || m.Len != l.Len {
 				r.Content = append(r.Content, p)
 			}
 		}
